@@ -55,6 +55,9 @@ func cbkResetAbaDetector() int64 {
 	return atomic.SwapInt64(&cbkAbaSuspects, 0)
 }
 
+// watchdog of blocking reads inside OnData (an absolute read deadline set when the stream is created; executions last a few seconds)
+const cbkReadWatchdog = 8 * time.Second
+
 type cbkProfile struct {
 	name  string
 	build func(k *ctl)
@@ -127,6 +130,7 @@ type cbkStream struct {
 	offered      uint64 // atomic: max(consumed + Len) seen at an OnData entry
 	nData        int64
 	plainSerial  int   // deliberately plain: written by every OnData invocation (race-detector sentinel of "serially")
+	closeCalled  int32 // 1 once the receiver's user goroutine is about to call Close
 	closeRet     int32 // 1 once a local Close (receiver side) returned
 	closeInCb    int32 // the local Close was issued inside OnData
 	postRet      int32 // OnData entries after the local Close returned
@@ -171,6 +175,7 @@ type cbkExec struct {
 	inc         string
 	stuck       bool
 	abaSuspects int64
+	timeouts    int64
 	zombies     []*Stream
 	allSent     int32
 
@@ -225,7 +230,7 @@ func (x *cbkExec) OnNewStream(st *Stream) {
 	if s != nil && s.sv == nil {
 		s.sv = st
 		if s.plan.Dir == "c2s" {
-			st.SetReadDeadline(time.Now().Add(10 * time.Minute)) // watchdog of the blocking reads inside OnData
+			st.SetReadDeadline(time.Now().Add(10 * time.Minute)) // replaced by a relative deadline before every blocking read inside OnData
 			_ = st.SetCallbacks(s)
 		}
 	} else {
@@ -262,7 +267,13 @@ func (s *cbkStream) take(r BufferReader, n int) bool {
 	}
 	buf, err := r.ReadBytes(n)
 	if err != nil {
-		// only a blocking read (n > Len) can fail: the stream was closed under it
+		// only a blocking read (n > Len) can fail: the stream was closed under it - or the watchdog deadline passed
+		if err == ErrTimeout {
+			atomic.AddInt64(&s.x.timeouts, 1)
+			st := s.recvStream()
+			s.x.inconclusive("stream %d (%s): a blocking ReadBytes(%d) inside OnData for bytes the writer had already flushed did not return within the %v watchdog (receiver state %d, local Close called/armed: %v, Close returned: %v) - a local close discards the bytes in flight while its completion waits for this OnData",
+				s.idx, s.plan.Dir, n, cbkReadWatchdog, st.getStreamState(), atomic.LoadInt32(&s.closeCalled) == 1 || atomic.LoadInt32(&s.closeArmed) == 2, atomic.LoadInt32(&s.closeRet) == 1)
+		}
 		return false
 	}
 	off := atomic.LoadUint64(&s.consumed)
@@ -291,8 +302,9 @@ func (s *cbkStream) take(r BufferReader, n int) bool {
 				}
 			}
 		}
-		s.x.violate(s, "stream %d (%s, OnData style %s): byte %d consumed inside OnData is %#x, the keyed sequence has %#x there; the delivered bytes belong to %s",
+		msg := fmt.Sprintf("stream %d (%s, OnData style %s): byte %d consumed inside OnData is %#x, the keyed sequence has %#x there; the delivered bytes belong to %s",
 			s.idx, s.plan.Dir, s.plan.Behaviour, at, buf[i], keyedByte(s.key, at), where)
+		s.x.violate(s, "%s", msg)
 	}
 	atomic.AddUint64(&s.consumed, uint64(len(buf)))
 	r.ReleasePreviousRead()
@@ -303,7 +315,8 @@ func (s *cbkStream) OnData(r BufferReader) {
 	x := s.x
 	defer func() {
 		if rec := recover(); rec != nil {
-			x.violate(s, "stream %d: panic inside OnData: %v\n%s", s.idx, rec, truncate(string(debug.Stack()), 1500))
+			msg := fmt.Sprintf("stream %d: panic inside OnData: %v\n%s", s.idx, rec, truncate(string(debug.Stack()), 1500))
+			x.violate(s, "%s", msg)
 		}
 	}()
 	if n := atomic.AddInt32(&s.inData, 1); n > 1 {
@@ -328,6 +341,7 @@ func (s *cbkStream) OnData(r BufferReader) {
 		case <-s.gate:
 		case <-time.After(30 * time.Second):
 		}
+		s.recvStream().SetReadDeadline(time.Now().Add(cbkReadWatchdog))
 		if !s.take(r, avail+5) { // a blocking read for 5 bytes more than were buffered at entry
 			s.take(r, r.Len())
 		}
@@ -390,6 +404,7 @@ func (s *cbkStream) OnData(r BufferReader) {
 			}
 			n += extra
 			atomic.AddInt64(&s.blockedReads, 1)
+			s.recvStream().SetReadDeadline(time.Now().Add(cbkReadWatchdog)) // same goroutine as the read
 		}
 		if !s.take(r, n) {
 			s.take(r, r.Len())
@@ -747,6 +762,7 @@ func runCbkCase(c *checkCtx, cs cbkCase, race bool) *cbkExec {
 							runtime.Gosched()
 						}
 					}
+					atomic.StoreInt32(&s.closeCalled, 1)
 					_ = s.recvStream().Close()
 					atomic.StoreInt32(&s.closeRet, 1)
 				}(s)
@@ -898,6 +914,7 @@ func checkCallback(c *checkCtx) {
 		if cross > 0 {
 			c.nontrivial(fmt.Sprintf("%d/%s/%s", cs.Streams, cs.Profile, x.k.signature()))
 		}
+		c.count("blocking reads inside OnData that hit the watchdog", atomic.LoadInt64(&x.timeouts))
 		if len(x.viol) > 0 {
 			ownViolations++
 			c.violation(name, map[string]interface{}{"case": cs, "violations": x.viol, "streams": x.violInfo,
